@@ -4,6 +4,11 @@
      /repo/photutils/geometry/core.pyx             floor_sqrt, distance, area_arc, area_triangle
      /repo/photutils/geometry/circular_overlap.pyx circular_overlap_core, circular_overlap_single_exact
 
+   Transcribed from /repo at commit 6f1f5715dfd3303780fb7367202b491274460a6b; sha256 of the files read:
+     circular_overlap.pyx 332f301668e9220aa6d40a93cdd340595c0f7d9505638666dedca1003470375a
+     core.pyx             bc65bcb1d92385503d1a123588c14718e28714b13a9ec7dc7637a748ec56bfbc
+   (a different hash means this transcription has to be re-read against the source).
+
    Every C `double` becomes a Coq real `R`; `sqrt`, `asin`, `sin` are the functions of the
    Coq standard library (Reals).  Each source statement is transcribed in order; each source
    comparison `a < b`, `a > b`, `a <= b`, `a >= b` becomes the matching decidable comparison
